@@ -6,15 +6,13 @@
 
   * key-generation data flow of `Parameters.GenEvaluationKeys` / `genEncapsulationEvaluationKeysNew`:
     `encapsulation_confined`, `encapsulation_key_present`, `sparse_plaintext_only_under_dense`,
-    `genEvaluationKeys_panics_iff` — for EVERY parameter summary;
+    `genEvaluationKeys_panics_iff`, `accepted_no_panic` — for EVERY parameter summary;
   * Galois-key inventory, helper (`dft.MatrixLiteral.GaloisElements`, `Parameters.GaloisElements`) versus
     evaluator (`NewMatrixFromLiteral` + BSGS evaluation, `Trace`, `Conjugate`, sparse repacking rotation):
-    `index_maps_agree`, `bsgs_rotations_agree`, `keys_sufficient`, `keys_exact_up_to_identity`,
-    `keys_exact` (for literals without a two-diagonal matrix), `keys_exact_counterexample`
+    `index_maps_agree`, `bsgs_rotations_agree`, `keys_exact` (set equality), `keys_sufficient`
     — for ALL `LogN`, `LogSlots`, depth splits accepted by the parameter literal (no enumeration);
-  * level layout and schedule: `layout_consistent`, `output_level_scale` (ungrouped factorisations),
-    `output_level_grouped_s2c` / `output_level_counterexample` (a shipped default literal),
-    `grouped_c2s_errors`.
+  * level layout and schedule: `layout_consistent`, `output_level_scale` — for every literal,
+    grouped depth splits included.
 
   What is NOT provable here and is covered ONLY by measured probes of the harness
   (`bootstrap_precision`, `c2s_s2c_inverse`, `batch_bootstrap`, labelled `measured=1`):
@@ -25,15 +23,11 @@
   whether the message is consistent with that scale is exactly the measured precision.
   That `EvaluateNew` of `mod1` consumes `Depth()` levels is taken from the tie line `stages`.
 
-  DEFECTS of the code exhibited by the harness and mirrored here (model follows the code):
-  * grouped depth splits (`Levels[i] > 1`): one `Rescale` per matrix instead of per group —
-    `output_level_grouped_s2c`, `output_level_counterexample`, `grouped_c2s_errors`
-    (probes `output_level_scale`, `bootstrap_precision`, `grouped_split_inverse`; key C18-grouped-split-rescale);
-  * a Galois key for the identity automorphism is generated for matrices with two diagonals —
-    `keys_exact_counterexample` (probe `no_identity_galois_key`);
-  * `GenEvaluationKeys` panics for an accepted literal without auxiliary primes —
-    `genEvaluationKeys_panics_iff` (probe `no_p_keygen`);
-  * `Evaluator.ShallowCopy` drops `xPow2InvN1` (not modelled; probe `shallowcopy_matches`).
+  The model follows the code AFTER the four C18 fixes (/verif/fixes/C18-*.diff):
+  one rescaling per factorisation group in `dft.Evaluator.dft` (before: one per matrix — the four
+  shipped literals with an S2C group `{30, 30}` bootstrapped to `MaxLevel-1` with no precision);
+  `ShallowCopy` keeps `xPow2InvN1`; no Galois key for the identity automorphism / conjugation generated
+  once; `NewParametersFromLiteral` rejects an empty `LogP` (before: `GenEvaluationKeys` panicked).
 -/
 import Lattigo.Proofs.BootstrapRot
 
@@ -129,13 +123,21 @@ theorem encapsulation_key_present (l : KeyLit) (galEls : List Nat) (he : l.ephem
   refine ⟨_, rfl, (⟨"EvkDenseToSparse", [.sparse], some .dense, 0, 0, .q0p0⟩ : KeyRec), ?_, rfl, rfl, rfl, rfl⟩
   simp
 
-/-- `GenEvaluationKeys` panics (model: `none`) exactly for literals without auxiliary prime that
-    keep the residual ring or ask for the ephemeral secret. `NewParametersFromLiteral` accepts
-    `LogP = []`, so this is reachable through the public API (probe `no_p_keygen`). -/
+/-- `GenEvaluationKeys` panics (model: `none`) exactly for parameters without auxiliary prime that
+    keep the residual ring or ask for the ephemeral secret. -/
 theorem genEvaluationKeys_panics_iff (l : KeyLit) (galEls : List Nat) :
     genEvaluationKeys l galEls = none ↔ l.pCount = 0 ∧ (l.ringDiffers = false ∨ l.ephemeral = true) := by
   unfold genEvaluationKeys genEncapsulationKeys
   by_cases hp : l.pCount = 0 <;> cases hd : l.ringDiffers <;> cases he : l.ephemeral <;> simp [hp]
+
+/-- `NewParametersFromLiteral` rejects `len(LogP) = 0` (`KeyLit.accepted`), so the key helper cannot
+    panic on parameters obtained through the public constructor (probe `no_p_keygen`). -/
+theorem accepted_no_panic (l : KeyLit) (galEls : List Nat) (h : l.accepted) :
+    genEvaluationKeys l galEls ≠ none := by
+  intro hn
+  have := ((genEvaluationKeys_panics_iff l galEls).mp hn).1
+  unfold KeyLit.accepted at h
+  omega
 
 example : ∃ ks, genEvaluationKeys ⟨25, 5, true, false, false⟩ [5, 25] = some ks ∧ ks.length = 5 := ⟨_, rfl, rfl⟩
 
@@ -159,90 +161,46 @@ theorem bsgs_rotations_agree (D : List Nat) (cols slots bsgs : Nat) (rf : Bool)
 
 example : (∀ d ∈ [0, 1, 7, 8, 9, 15], d < (if false then 2 * 16 else 16)) ∧ 3 ≤ [0, 1, 7, 8, 9, 15].length := by decide
 
-/-- some matrix of the two DFTs has fewer than three diagonals -/
-def narrow (g : GalLit) : Prop :=
-  (∃ D ∈ computeIndexMap g.c2s g.logN, D.length < 3) ∨ (∃ D ∈ computeIndexMap g.s2c g.logN, D.length < 3)
-
-theorem galEl_zero (logN : Nat) : galEl logN 0 = 1 := by
-  unfold galEl
-  have : 2 ≤ 2 ^ (logN + 1) := by
-    calc 2 = 2 ^ 1 := rfl
-      _ ≤ 2 ^ (logN + 1) := Nat.pow_le_pow_right (by omega) (by omega)
-  simp only [Nat.zero_mod]
-  unfold modExpLoop
-  simp only [if_true]
-  exact Nat.mod_eq_of_lt (by omega)
-
-/-- **keys_sufficient.** Every Galois key the evaluator requests during `bootstrap`
-    (`Trace`, the two DFTs, `Conjugate`, the sparse repacking rotation) is generated by the helper —
-    for every literal accepted by `NewParametersFromLiteral`. -/
-theorem keys_sufficient (g : GalLit) (hv : g.valid) : ∀ x ∈ requiredGalois g, x ∈ generatedGalois g := by
+/-- **keys_exact.** `required(evaluator) = generated(helper)` as sets of Galois elements: the keys
+    requested during `bootstrap` (`Trace`, the two DFTs evaluated by BSGS, `Conjugate`, the sparse
+    repacking rotation) are exactly the keys `GenEvaluationKeys` generates — for EVERY literal accepted by
+    `NewParametersFromLiteral`: all ring degrees, slot counts, depth splits, BSGS ratios. -/
+theorem keys_exact (g : GalLit) (hv : g.valid) : ∀ x, x ∈ generatedGalois g ↔ x ∈ requiredGalois g := by
   obtain ⟨_, _, hc, hs⟩ := hv
-  intro x hx
-  unfold requiredGalois at hx
-  unfold generatedGalois
-  simp only [mem_dedupL, List.mem_append, List.mem_map, List.mem_cons, List.not_mem_nil, or_false] at hx ⊢
-  rcases hx with ((((hx | hx) | ⟨r, hr, rfl⟩) | rfl) | hx) | ⟨r, hr, rfl⟩
-  · exact Or.inl (Or.inl (Or.inl (Or.inl hx)))
-  · split at hx
-    · simp only [List.mem_cons, List.not_mem_nil, or_false] at hx
-      exact Or.inr hx
-    · simp at hx
-  · exact Or.inl (Or.inl (Or.inl (Or.inr ⟨r, dftRequested_sub _ _ hc r hr, rfl⟩)))
-  · exact Or.inr rfl
-  · split at hx
-    · rename_i hsp
-      simp only [List.mem_cons, List.not_mem_nil, or_false] at hx
-      subst hx
-      refine Or.inl (Or.inl (Or.inl (Or.inr ⟨2 ^ g.logSlots, ?_, rfl⟩)))
-      unfold helperRotations
-      rw [mem_dedupL, List.mem_append]
-      left
-      have he : g.c2s.encode = true := rfl
-      have : (g.c2s.sparseRepack g.logN && g.c2s.encode) = true := by rw [hsp, he]; rfl
-      rw [if_pos this]
-      simp [GalLit.c2s]
-    · simp at hx
-  · exact Or.inl (Or.inl (Or.inr ⟨r, dftRequested_sub _ _ hs r hr, rfl⟩))
-
-/-- **keys_exact (up to the identity).** Every Galois key the helper generates is requested by the
-    evaluator, except possibly the key of the identity automorphism (`GaloisElement(0) = 1`), and that
-    one only when some DFT matrix has fewer than three diagonals (`len(pVec) < 3` branch of
-    `addMatrixRotToList`, which appends the diagonal indices — including 0 — unsplit). -/
-theorem keys_exact_up_to_identity (g : GalLit) (hv : g.valid) :
-    ∀ x ∈ generatedGalois g, x ∈ requiredGalois g ∨ (x = 1 ∧ narrow g) := by
-  obtain ⟨_, _, hc, hs⟩ := hv
-  intro x hx
-  unfold generatedGalois at hx
-  unfold requiredGalois
-  simp only [mem_dedupL, List.mem_append, List.mem_map, List.mem_cons, List.not_mem_nil, or_false] at hx ⊢
-  rcases hx with (((hx | ⟨r, hr, rfl⟩) | ⟨r, hr, rfl⟩) | rfl) | rfl
-  · exact Or.inl (Or.inl (Or.inl (Or.inl (Or.inl (Or.inl hx)))))
-  · rcases helperRotations_sub _ _ hc r hr with ⟨rfl, hn⟩ | h | ⟨rfl, hsp, _⟩
-    · exact Or.inr ⟨galEl_zero _, Or.inl hn⟩
-    · exact Or.inl (Or.inl (Or.inl (Or.inl (Or.inr ⟨r, h, rfl⟩))))
-    · refine Or.inl (Or.inl (Or.inr ?_))
-      rw [if_pos hsp]
-      simp [GalLit.c2s]
-  · rcases helperRotations_sub _ _ hs r hr with ⟨rfl, hn⟩ | h | ⟨_, _, he⟩
-    · exact Or.inr ⟨galEl_zero _, Or.inr hn⟩
-    · exact Or.inl (Or.inr ⟨r, h, rfl⟩)
-    · simp [GalLit.s2c] at he
-  · exact Or.inl (Or.inl (Or.inl (Or.inr rfl)))
-  · exact Or.inl (Or.inl (Or.inl (Or.inr rfl)))
-
-/-- **keys_exact.** `required(evaluator) = generated(helper)` as sets of Galois elements, for every
-    accepted literal none of whose DFT matrices has fewer than three diagonals — all slot counts,
-    all depth splits (in particular all eight shipped default literals, see the examples). -/
-theorem keys_exact (g : GalLit) (hv : g.valid) (hn : ¬ narrow g) :
-    ∀ x, x ∈ generatedGalois g ↔ x ∈ requiredGalois g := by
   intro x
+  unfold requiredGalois generatedGalois
+  simp only [mem_dedupL, List.mem_append, List.mem_map, List.mem_cons, List.not_mem_nil, or_false]
   constructor
-  · intro hx
-    rcases keys_exact_up_to_identity g hv x hx with h | ⟨_, h⟩
-    · exact h
-    · exact absurd h hn
-  · exact keys_sufficient g hv x
+  · rintro (((hx | ⟨r, hr, rfl⟩) | ⟨r, hr, rfl⟩) | rfl)
+    · exact Or.inl (Or.inl (Or.inl (Or.inl (Or.inl hx))))
+    · rcases (mem_helperRotations _ _ hc r).mp hr with h | ⟨rfl, hsp, _⟩
+      · exact Or.inl (Or.inl (Or.inl (Or.inr ⟨r, h, rfl⟩)))
+      · refine Or.inl (Or.inr ?_)
+        rw [if_pos hsp]
+        simp [GalLit.c2s]
+    · rcases (mem_helperRotations _ _ hs r).mp hr with h | ⟨_, _, he⟩
+      · exact Or.inr ⟨r, h, rfl⟩
+      · simp [GalLit.s2c] at he
+    · exact Or.inl (Or.inl (Or.inr rfl))
+  · rintro ((((((hx | hx) | ⟨r, hr, rfl⟩) | rfl) | hx) | ⟨r, hr, rfl⟩))
+    · exact Or.inl (Or.inl (Or.inl hx))
+    · split at hx
+      · simp only [List.mem_cons, List.not_mem_nil, or_false] at hx
+        exact Or.inr hx
+      · simp at hx
+    · exact Or.inl (Or.inl (Or.inr ⟨r, (mem_helperRotations _ _ hc r).mpr (Or.inl hr), rfl⟩))
+    · exact Or.inr rfl
+    · split at hx
+      · rename_i hsp
+        simp only [List.mem_cons, List.not_mem_nil, or_false] at hx
+        subst hx
+        exact Or.inl (Or.inl (Or.inr ⟨2 ^ g.logSlots, (mem_helperRotations _ _ hc _).mpr (Or.inr ⟨rfl, hsp, rfl⟩), rfl⟩))
+      · simp at hx
+    · exact Or.inl (Or.inr ⟨r, (mem_helperRotations _ _ hs r).mpr (Or.inl hr), rfl⟩)
+
+/-- **keys_sufficient.** No key is missing during `bootstrap`. -/
+theorem keys_sufficient (g : GalLit) (hv : g.valid) : ∀ x ∈ requiredGalois g, x ∈ generatedGalois g :=
+  fun x hx => (keys_exact g hv x).mpr hx
 
 /-- the default literal `ParametersLiteral{}` (C2S depth 4, S2C depth 3) at `LogN = 16`, full packing
     (N16QP1546H192H32, N16QP1767H32768H32) -/
@@ -251,23 +209,15 @@ def defaultLit : GalLit := { logN := 16, logSlots := 15, c2sLevels := [1, 1, 1, 
 def groupedLit : GalLit := { logN := 16, logSlots := 15, c2sLevels := [1, 1, 1, 1], s2cLevels := [1, 2] }
 /-- N15QP768H192H32 / N15QP880H16384H32: C2S `{49},{49}`, S2C `{30, 30}` -/
 def n15Lit : GalLit := { logN := 15, logSlots := 14, c2sLevels := [1, 1], s2cLevels := [2] }
-/-- the default literal with `LogSlots = 3` (depths `min(4,3)`, `min(3,3)`), as exercised with small
-    slot counts by `TestCircuitWithEncapsulation` (`LogSlots = 1`) -/
+/-- the default literal with `LogSlots = 3` (depths `min(4,3)`, `min(3,3)`): its first C2S and last S2C
+    matrices have two diagonals (`len(pVec) < 3` branch of `addMatrixRotToList`) -/
 def smallSlotsLit : GalLit := { logN := 16, logSlots := 3, c2sLevels := [1, 1, 1], s2cLevels := [1, 1, 1] }
 
-instance (g : GalLit) : Decidable (narrow g) := by unfold narrow; infer_instance
-
-example : defaultLit.valid ∧ ¬ narrow defaultLit := by decide +kernel
-example : groupedLit.valid ∧ ¬ narrow groupedLit := by decide +kernel
-example : n15Lit.valid ∧ ¬ narrow n15Lit := by decide +kernel
-
-/-- **keys_exact_counterexample.** The unrestricted equality is FALSE of the code: for the default
-    literal with `LogSlots = 3` the helper generates a Galois key for the identity automorphism
-    (Galois element 1) that the evaluator never requests (confirmed by the tie lines `generated` /
-    `required` / `inventory` of the harness: key `gk1` is in the returned key set). -/
-theorem keys_exact_counterexample :
-    smallSlotsLit.valid ∧ 1 ∈ generatedGalois smallSlotsLit ∧ 1 ∉ requiredGalois smallSlotsLit := by
-  decide +kernel
+example : defaultLit.valid ∧ groupedLit.valid ∧ n15Lit.valid ∧ smallSlotsLit.valid := by decide
+example : (generatedGalois defaultLit).length = 48 := by decide +kernel
+/-- regression witness of the former identity key: Galois element 1 is no longer generated
+    (before the fix `1 ∈ generatedGalois smallSlotsLit` while `1 ∉ requiredGalois smallSlotsLit`). -/
+example : 1 ∉ generatedGalois smallSlotsLit ∧ 1 ∉ requiredGalois smallSlotsLit := by decide +kernel
 
 /-! ## 3. Level layout and schedule -/
 
@@ -279,30 +229,30 @@ theorem layout_consistent (s : SchedLit) (h : 1 ≤ s.residualQ) :
   simp only [Bool.and_eq_true, decide_eq_true_eq]
   omega
 
-/-- **output_level_scale.** For every literal whose factorisations are not grouped (one matrix per
-    consumed prime: all shipped C2S splits, the S2C splits of the four `{39}/{42}`-type defaults):
-    the stages end at the announced levels and `Evaluate` returns a ciphertext at
-    `ResidualParameters.MaxLevel() = OutputLevel()`; with a reserved prime the iterated path drops it. -/
-theorem output_level_scale (s : SchedLit) (h : 1 ≤ s.residualQ)
-    (hc : s.c2sMats = s.c2sGroups) (hs : s.s2cMats = s.s2cGroups) :
+/-- **output_level_scale.** For EVERY literal (any residual chain, any factorisation — grouped or
+    not —, any mod1 depth, with or without reserved prime): every stage succeeds and ends at the level
+    the layout announces, and `Evaluate` returns a ciphertext at
+    `ResidualParameters.MaxLevel() = Evaluator.OutputLevel()`; with a reserved prime (necessarily the
+    iterated path) the extra prime is dropped at the end. -/
+theorem output_level_scale (s : SchedLit) (h : 1 ≤ s.residualQ) :
     s.stages = .ok [s.c2sLevelQ, s.mod1LevelQ, s.s2cLevelQ, s.announcedLevel + s.res] ∧
     s.outputLevel true = some s.announcedLevel ∧
     (s.reserved = false → s.outputLevel false = some s.announcedLevel) := by
   have hst : s.stages = .ok [s.c2sLevelQ, s.mod1LevelQ, s.s2cLevelQ, s.announcedLevel + s.res] := by
     unfold SchedLit.stages
-    have h1 : ¬ s.c2sLevelQ < s.c2sMats := by
+    have h1 : ¬ s.c2sLevelQ < s.c2sGroups := by
       unfold SchedLit.c2sLevelQ; omega
-    have h2 : ¬ s.c2sLevelQ - s.c2sMats < s.mod1LevelQ := by
+    have h2 : ¬ s.c2sLevelQ - s.c2sGroups < s.mod1LevelQ := by
       unfold SchedLit.c2sLevelQ; omega
     have h3 : ¬ s.mod1LevelQ - s.mod1Depth < s.s2cLevelQ := by
       unfold SchedLit.mod1LevelQ; omega
-    have h4 : ¬ s.s2cLevelQ < s.s2cMats := by
+    have h4 : ¬ s.s2cLevelQ < s.s2cGroups := by
       unfold SchedLit.s2cLevelQ; omega
     rw [if_neg h1, if_neg h2, if_neg h3, if_neg h4]
     have e1 : s.qCount - 1 = s.c2sLevelQ := (layout_consistent s h).2
-    have e2 : s.c2sLevelQ - s.c2sMats = s.mod1LevelQ := by unfold SchedLit.c2sLevelQ; omega
+    have e2 : s.c2sLevelQ - s.c2sGroups = s.mod1LevelQ := by unfold SchedLit.c2sLevelQ; omega
     have e3 : s.mod1LevelQ - s.mod1Depth = s.s2cLevelQ := by unfold SchedLit.mod1LevelQ; omega
-    have e4 : s.s2cLevelQ - s.s2cMats = s.announcedLevel + s.res := by
+    have e4 : s.s2cLevelQ - s.s2cGroups = s.announcedLevel + s.res := by
       unfold SchedLit.s2cLevelQ SchedLit.announcedLevel; omega
     rw [e1, e2, e3, e4]
   refine ⟨hst, ?_, ?_⟩
@@ -317,48 +267,14 @@ theorem output_level_scale (s : SchedLit) (h : 1 ≤ s.residualQ)
     rw [hst]
     simp [SchedLit.res, hr]
 
-example : (1 : Nat) ≤ 10 ∧ (4 : Nat) = 4 ∧ (3 : Nat) = 3 := by decide
 /-- N16QP1546H192H32: 10 residual primes, S2C 3, C2S 4, `mod1Depth = 8` -/
-example : (⟨10, 3, 4, 3, 4, mod1Depth true false 30 16 3 0, false, none⟩ : SchedLit).outputLevel false = some 9 := by decide
-
-/-- **grouped S2C split.** With a group of more than one matrix in SlotsToCoeffs (`Levels[i] > 1`)
-    the level layout reserves one prime per GROUP but `lintrans.EvaluateSequential` rescales after
-    every MATRIX: the bootstrapped ciphertext is NOT at the announced level. -/
-theorem output_level_grouped_s2c (s : SchedLit)
-    (hc : s.c2sMats = s.c2sGroups) (hs : s.s2cGroups < s.s2cMats) (hr : s.reserved = false) :
-    s.outputLevel false ≠ some s.announcedLevel := by
-  unfold SchedLit.outputLevel SchedLit.stages
-  have h1 : ¬ s.c2sLevelQ < s.c2sMats := by unfold SchedLit.c2sLevelQ; omega
-  have h2 : ¬ s.c2sLevelQ - s.c2sMats < s.mod1LevelQ := by unfold SchedLit.c2sLevelQ; omega
-  have h3 : ¬ s.mod1LevelQ - s.mod1Depth < s.s2cLevelQ := by unfold SchedLit.mod1LevelQ; omega
-  rw [if_neg h1, if_neg h2, if_neg h3]
-  by_cases h4 : s.s2cLevelQ < s.s2cMats
-  · rw [if_pos h4]; simp
-  · rw [if_neg h4]
-    simp only [Bool.false_eq_true, if_false, ne_eq, Option.some.injEq]
-    have hres : s.res = 0 := by simp [SchedLit.res, hr]
-    unfold SchedLit.s2cLevelQ at h4 ⊢
-    unfold SchedLit.announcedLevel
-    omega
-
-/-- **output_level_counterexample.** Shipped default literal N16QP1553H192H32 (8 residual primes,
-    S2C `{30}, {30, 30}` = 2 groups / 3 matrices, C2S 4, `mod1Depth = 8`): the model — tied to the real
-    code by the `stages` / `output` lines on the size-reduced literal — returns level 6, announced 7.
-    (Same for N15QP768H192H32, N16QP1793H32768H32, N15QP880H16384H32.) -/
-theorem output_level_counterexample :
-    let s : SchedLit := ⟨8, 2, 4, 3, 4, mod1Depth true false 30 16 3 0, false, none⟩
-    s.outputLevel false = some 6 ∧ s.announcedLevel = 7 := by decide
-
-/-- **grouped C2S split.** A group of more than one matrix in CoeffsToSlots leaves the ciphertext
-    below `Mod1.LevelQ`: `EvalMod` (hence `Bootstrap`) returns an error. -/
-theorem grouped_c2s_errors (s : SchedLit) (hc : s.c2sGroups < s.c2sMats) (hl : s.c2sMats ≤ s.c2sLevelQ) :
-    s.stages = .error "err:evalmod" := by
-  unfold SchedLit.stages
-  have h1 : ¬ s.c2sLevelQ < s.c2sMats := by omega
-  have h2 : s.c2sLevelQ - s.c2sMats < s.mod1LevelQ := by unfold SchedLit.c2sLevelQ at *; omega
-  rw [if_neg h1, if_pos h2]
-
-example : (⟨2, 1, 1, 1, 2, 8, false, none⟩ : SchedLit).stages = .error "err:evalmod" := by decide
+example : (⟨10, 3, 4, mod1Depth true false 30 16 3 0, false, none⟩ : SchedLit).outputLevel false = some 9 := by decide
+/-- N16QP1553H192H32: 8 residual primes, S2C `{30}, {30, 30}` (2 groups, 3 matrices), C2S 4: level 7 as
+    announced (before the fix of `dft.Evaluator.dft`: level 6 and no precision left). -/
+example : (⟨8, 2, 4, mod1Depth true false 30 16 3 0, false, none⟩ : SchedLit).outputLevel false = some 7 := by decide
+/-- iterated bootstrapping with a reserved prime -/
+example : (⟨2, 3, 4, 8, true, none⟩ : SchedLit).stages = .ok [17, 13, 5, 2] ∧
+    (⟨2, 3, 4, 8, true, none⟩ : SchedLit).outputLevel true = some 1 := by decide
 
 end Lattigo.Props.C18
 
@@ -366,14 +282,10 @@ end Lattigo.Props.C18
 #print axioms Lattigo.Props.C18.sparse_plaintext_only_under_dense
 #print axioms Lattigo.Props.C18.encapsulation_key_present
 #print axioms Lattigo.Props.C18.genEvaluationKeys_panics_iff
+#print axioms Lattigo.Props.C18.accepted_no_panic
 #print axioms Lattigo.Props.C18.index_maps_agree
 #print axioms Lattigo.Props.C18.bsgs_rotations_agree
-#print axioms Lattigo.Props.C18.keys_sufficient
-#print axioms Lattigo.Props.C18.keys_exact_up_to_identity
 #print axioms Lattigo.Props.C18.keys_exact
-#print axioms Lattigo.Props.C18.keys_exact_counterexample
+#print axioms Lattigo.Props.C18.keys_sufficient
 #print axioms Lattigo.Props.C18.layout_consistent
 #print axioms Lattigo.Props.C18.output_level_scale
-#print axioms Lattigo.Props.C18.output_level_grouped_s2c
-#print axioms Lattigo.Props.C18.output_level_counterexample
-#print axioms Lattigo.Props.C18.grouped_c2s_errors
